@@ -232,7 +232,7 @@ class Tracker:
                     if not members_before.get(ch):
                         self.owner[ch] = who
                         for ty in (b"join", b"publish", b"read"):      # a fresh channel: every allow-list is empty
-                            self.acl[(ch, ty)] = {}
+                            self.acl[(ch, ty)] = {"last": {}, "domains": set(), "report": []}
                         self.acl_plain[ch] = True
                     self.members.setdefault(ch, set()).add(who)
                     acked_joins.append((ch, who, k0))
@@ -244,31 +244,31 @@ class Tracker:
                         for ty in (b"join", b"publish", b"read"):      # the emptied channel is gone, its lists with it
                             self.acl.pop((ch, ty), None)
                 if kind == "SET_CHAN_ACL" and "SET_CHAN_ACL_ACK" in names and (ch, params.get("type")) in self.acl:
-                    # the allow-list as the acknowledged updates build it: per domain a set of users; a domain without users
-                    # stands for the whole domain (reported as the bare domain)
+                    # C03, as the property states it: what the acknowledged updates say about each USER nid (the last update
+                    # naming it decides: present after add, absent after remove), and which bare domains were ever named (their
+                    # presence in the list is not constrained here)
                     ents = [n for n in params.get("nids", b"").split(b" ") if n]
                     if not all(re.fullmatch(rb"[a-z0-9]+@[a-z0-9.]+|[a-z0-9.]+", n) for n in ents):
                         self.acl_plain[ch] = False
-                    lst = self.acl[(ch, params["type"])]
+                    st = self.acl[(ch, params["type"])]
                     for n in ents:
-                        user, dom = (n.split(b"@", 1) + [None])[:2] if b"@" in n else (b"", n)
-                        if params.get("action") == b"add":
-                            d = lst.setdefault(dom, set())
-                            if user:
-                                d.add(user)
-                        elif params.get("action") == b"remove":
-                            if dom in lst:
-                                lst[dom].discard(user)
-                                if not lst[dom]:
-                                    del lst[dom]
+                        if b"@" in n and params.get("action") in (b"add", b"remove"):
+                            st["last"][n] = params["action"]
                         else:
-                            self.acl_plain[ch] = False
+                            st["domains"].add(n)
+                    st["report"] = None          # the list was changed: the previous report is history
                 if kind == "GET_CHAN_ACL" and "CHAN_ACL" in names and "page" not in params and "page_size" not in params \
                         and (ch, params.get("type")) in self.acl and self.acl_plain.get(ch):
                     rep = fget([f for f in myf if fname(f) == "CHAN_ACL"][0], "nids")
-                    want = sorted(x for dom, us in self.acl[(ch, params["type"])].items() for x in ([u + b"@" + dom for u in us] or [dom]))
-                    if sorted(rep) != want and len(want) <= 20:
-                        self.viol.append(("C03", f"the {params['type'].decode()} list of {ch.decode()} is reported as {sorted(rep)}; the acknowledged updates since the channel was created give {want}", t))
+                    st = self.acl[(ch, params["type"])]
+                    for n, act in sorted(st["last"].items()):
+                        if act == b"add" and n not in rep:
+                            self.viol.append(("C03", f"{n.decode()} was added to the {params['type'].decode()} list of {ch.decode()} (acknowledged, never removed since) but the reported list {sorted(rep)} lacks it", t))
+                        if act == b"remove" and n in rep:
+                            self.viol.append(("C03", f"{n.decode()} was removed from the {params['type'].decode()} list of {ch.decode()} (acknowledged, never added since) but the reported list {sorted(rep)} still has it", t))
+                    if st["report"] is not None and sorted(st["report"]) != sorted(rep):
+                        self.viol.append(("C03", f"the {params['type'].decode()} list of {ch.decode()} changed from {sorted(st['report'])} to {sorted(rep)} without an acknowledged update of that list in between (the lists are independent; a refused update changes nothing)", t))
+                    st["report"] = list(rep)
                 if kind == "SET_CHAN_ACL" and "SET_CHAN_ACL_ACK" in names and params.get("type") == b"read":
                     self.read_acl_touched.add(ch)
                 if kind == "SET_CHAN_ACL" and "SET_CHAN_ACL_ACK" in names and params.get("type") == b"publish":
@@ -429,21 +429,24 @@ class Tracker:
                 self.viol.append(("C02" if not mod else "C08", f"payload delivered to conn {k} differs from the accepted payload", t))
             if fget(f, "from") != me:
                 self.viol.append(("C07", f"MESSAGE from={fget(f, 'from')} but the sender is {me}", t))
-        readers = self.acl.get((ch, b"read")) if self.acl_plain.get(ch) else None
-        if readers:
-            # C01: nobody outside the read list the acknowledged updates add up to receives the payload
+        rd = self.acl.get((ch, b"read")) if self.acl_plain.get(ch) else None
+        def surely_listed(u):
+            return rd is not None and rd["last"].get(u) == b"add"
+        def surely_excluded(u):
+            # the list is surely not empty (somebody's last update is an add), u itself is not in it, and u's domain was
+            # never named as a bare domain
+            return rd is not None and any(a == b"add" for a in rd["last"].values()) and rd["last"].get(u) != b"add" \
+                and u.split(b"@", 1)[-1] not in rd["domains"]
+        if rd is not None:
+            # C01: nobody the acknowledged read list surely excludes receives the payload
             for k, f in msgs:
                 u = self.user.get(k)
-                if u is not None:
-                    un, _, ud = u.partition(b"@")
-                    if not (ud in readers and (not readers[ud] or un in readers[ud])):
-                        self.viol.append(("C01", f"MESSAGE of {ch} delivered to conn {k} ({u}) which the channel's read list {sorted(x for d, us in readers.items() for x in ([n + b'@' + d for n in us] or [d]))} does not permit", t))
-        if "BROADCAST_ACK" in names and expect is not None and (ch not in self.read_acl_touched or readers is not None):
+                if u is not None and surely_excluded(u):
+                    self.viol.append(("C01", f"MESSAGE of {ch} delivered to conn {k} ({u}), whom the read list built by the acknowledged updates ({sorted(n for n, a in rd['last'].items() if a == b'add')}) does not permit", t))
+        if "BROADCAST_ACK" in names and expect is not None and (ch not in self.read_acl_touched or rd is not None):
             for u in members_before.get(ch, set()):
-                if ch in self.read_acl_touched and readers:
-                    un, _, ud = u.partition(b"@")
-                    if not (ud in readers and (not readers[ud] or un in readers[ud])):
-                        continue        # not permitted by the read list the acknowledged updates add up to
+                if ch in self.read_acl_touched and not surely_listed(u):
+                    continue        # judged only for members the acknowledged updates surely list
                 for k in self.conns_of(u):
                     if k == k0 or k == self.case.get("stalled_resume"):
                         continue      # (a deliberately stalled reader is judged by stalled_resume_check once it reads on)
@@ -580,7 +583,16 @@ def acl_check(case, obs):
                     continue
                 if fname(f) == "IDENTIFY_ACK" or (fname(f) == "AUTH_ACK" and sl.frame_get(f, "succeeded") is True):
                     user[k] = fget(f, "nid")
+        if op["t"] == "hangup" or any(v.get("closed") for v in recv.values()):
+            # a connection ended: channels it was the last member of are gone, and a channel of the same name created later
+            # starts with empty lists — what was reported before says nothing about it.  (The tracker, which follows
+            # memberships, keeps judging: Tracker.acl.)
+            pending_clear = True
+        else:
+            pending_clear = False
         if op["t"] != "send":
+            if pending_clear:
+                reported.clear()
             continue
         k0 = op["k"]
         me = user.get(k0)
@@ -635,6 +647,8 @@ def acl_check(case, obs):
                         if "undecodable" not in f and fname(f) == "MESSAGE" and fget(f, "channel") == ch and k in user:
                             if not allowed(reported[(ch, b"read")], user[k]):
                                 viol.append(("C03", f"{user[k]} received a MESSAGE of {ch} although the reported read list does not permit it", t))
+        if pending_clear:
+            reported.clear()
     return viol
 
 
